@@ -142,6 +142,7 @@ type c35Fn struct {
 	spawnCalls        []*ast.CallExpr
 	batchVar          *types.Var // set by P4
 	foreignSpawn      ast.Node   // a goroutine started other than through the spawn helper
+	opaqueSpawn       ast.Node   // a spawn whose stage function is not a function literal
 }
 
 type c35Stage struct {
@@ -403,10 +404,15 @@ func c35NewFn(c *Ctx, a *c35Anchors, pk *packages.Package, fd *ast.FuncDecl) *c3
 		switch FullName(fn.Origin()) {
 		case a.spawn:
 			f.spawnCalls = append(f.spawnCalls, call)
+			nlit := 0
 			for _, arg := range call.Args {
 				if lit, ok := ast.Unparen(arg).(*ast.FuncLit); ok {
 					f.stages = append(f.stages, &c35Stage{lit: lit, spawn: call})
+					nlit++
 				}
+			}
+			if nlit != 1 && f.opaqueSpawn == nil {
+				f.opaqueSpawn = call
 			}
 		case a.newGroup:
 			if as, ok := f.parent(call).(*ast.AssignStmt); ok && len(as.Lhs) == 2 && len(as.Rhs) == 1 {
@@ -629,6 +635,10 @@ func runC35(c *Ctx, a c35Anchors) {
 		}
 		if len(f.iterVars) == 0 {
 			c.Undecided("C35-F0", f.name, fd.Pos(), "no iterator-typed parameter found")
+			continue
+		}
+		if f.opaqueSpawn != nil {
+			c.Undecided("C35-F0", f.name, f.opaqueSpawn.Pos(), fmt.Sprintf("%s spawns a stage whose function is not a literal at the spawn site: its body cannot be attributed to the pipeline", f.name))
 			continue
 		}
 		if f.foreignSpawn != nil {
@@ -980,51 +990,63 @@ func (f *c35Fn) ruleP2() {
 		withDone++
 		c.Ok("C35-P2", key, mine[0].Pos(), "defer wg.Done() on every path, once")
 	}
-	// Add
+	// Add: constant Add calls in the function body, all before any spawn, none in a loop; their sum
+	// is the number of counted stages
 	akey := f.name + "/wg.Add"
-	switch {
-	case len(adds) != 1:
-		c.Bad("C35-P2", akey, f.wgVar.Pos(), fmt.Sprintf("%s: %d wg.Add calls (want exactly one)", f.name, len(adds)))
-	case f.unitOf(adds[0]) != nil || len(adds[0].Args) != 1:
-		c.Bad("C35-P2", akey, adds[0].Pos(), f.name+": wg.Add must be called by the pipeline function itself, before the stages are spawned")
-	default:
-		tv := f.info.Types[adds[0].Args[0]]
-		n, exact := int64(0), false
-		if tv.Value != nil {
-			n, exact = constant.Int64Val(constant.ToInt(tv.Value))
+	{
+		sum, bad := int64(0), ""
+		var pos token.Pos = f.wgVar.Pos()
+		if len(adds) == 0 {
+			bad = "no wg.Add call"
 		}
-		pt, found := FindNode(g, adds[0])
-		bad := ""
-		if !exact {
-			bad = "the argument of wg.Add is not a constant"
-		} else if int(n) != withDone {
-			bad = fmt.Sprintf("wg.Add(%d) but %d stages `defer wg.Done()`: %s", n, withDone,
-				map[bool]string{true: "wg.Wait() never returns, the iterator is never closed and the statement hangs", false: "wg.Wait() returns (or the counter goes negative and panics) while a stage is still running, so iter.Close races with it"}[int(n) > withDone])
-		} else if !found {
-			bad = "wg.Add is unreachable"
-		} else {
+		for _, ad := range adds {
+			pos = ad.Pos()
+			if f.unitOf(ad) != nil || len(ad.Args) != 1 {
+				bad = "wg.Add must be called by the pipeline function itself, before the stages are spawned"
+				break
+			}
+			tv := f.info.Types[ad.Args[0]]
+			if tv.Value == nil {
+				bad = "the argument of wg.Add is not a constant"
+				break
+			}
+			n, exact := constant.Int64Val(constant.ToInt(tv.Value))
+			pt, found := FindNode(g, ad)
+			if !exact || !found {
+				bad = "wg.Add is unreachable or its argument is not an integer constant"
+				break
+			}
+			sum += n
+			self := pt.B.Nodes[pt.I]
 			for _, sp := range f.spawnCalls {
 				if f.unitOf(sp) != nil {
 					continue
 				}
 				if spt, ok := FindNode(g, sp); ok {
 					for _, x := range ReachableNodes(g, spt, nil, nil) {
-						if x == pt.B.Nodes[pt.I] {
-							bad = "wg.Add is reachable after a stage has been spawned (the stage's Done can run before the Add)"
+						if x == self {
+							bad = "wg.Add is reachable after a stage has been spawned (the stage's Done, or the closing stage's Wait, can run before the Add)"
 						}
 					}
 				}
 			}
 			for _, x := range ReachableNodes(g, pt, nil, nil) {
-				if x == pt.B.Nodes[pt.I] {
+				if x == self {
 					bad = "wg.Add is inside a loop"
 				}
 			}
+			if bad != "" {
+				break
+			}
+		}
+		if bad == "" && int(sum) != withDone {
+			bad = fmt.Sprintf("wg.Add(%d) but %d stages `defer wg.Done()`: %s", sum, withDone,
+				map[bool]string{true: "wg.Wait() never returns, the iterator is never closed and the statement hangs", false: "wg.Wait() returns (or the counter goes negative and panics) while a stage is still running, so iter.Close races with it"}[int(sum) > withDone])
 		}
 		if bad != "" {
-			c.Bad("C35-P2", akey, adds[0].Pos(), f.name+": "+bad)
+			c.Bad("C35-P2", akey, pos, f.name+": "+bad)
 		} else {
-			c.Ok("C35-P2", akey, adds[0].Pos(), fmt.Sprintf("wg.Add(%d) = %d stages with defer wg.Done(), before every spawn", n, withDone))
+			c.Ok("C35-P2", akey, pos, fmt.Sprintf("wg.Add(%d) = %d stages with defer wg.Done(), before every spawn", sum, withDone))
 		}
 	}
 	// Close after Wait
